@@ -275,3 +275,21 @@ T('c09-twin-format-style', 'C09', [(DI, "        'ToString': 'CAST(%s AS TEXT)',
                                     "        'ToString': 'CAST({0} AS TEXT)',\n        'DateAddDay': \"DATE({0}, {1} || ' days')\",\n        'DateDiffDay': \"CAST(JULIANDAY({0}) - JULIANDAY({1}) AS INT64)\"\n    }\n\n  def DecorateCombineRule")])
 T('c09-twin-kw-call', 'C09', [(ET, "    return self.dialect.Subscript(record, subscript, record_is_table)",
                                "    return self.dialect.Subscript(record, subscript, record_is_table=record_is_table)")])
+
+# ---------------------------------------------------------------- C13
+M('c13-closure-set', 'C13', [(U, "        iteration_predicates = iteration['predicates']\n", "        iteration_predicates = set(iteration['predicates'])\n")], 'C13-R1')
+M('c13-recursive-analysis-unsorted', 'C13', [(FU, "    for p, args in sorted(self.args_of.items()):", "    for p, args in self.args_of.items():")], 'C13-R1')
+M('c13-semigroups-list', 'C13', [(U, "    needed_udfs = sorted(needed_semigroups) + needed_udfs", "    needed_udfs = list(needed_semigroups) + needed_udfs")], 'C13-R1')
+M('c13-sticky-switch', 'C13', [(PA, "    TOO_MUCH = 'fun'\n  else:\n    TOO_MUCH = 'too much'\n", "    TOO_MUCH = 'fun'\n")], 'C13-R2')
+M('c13-callfunctor-unsorted', 'C13', [(FU, "    for r in sorted(rules, key=str):", "    for r in rules:")], 'C13-R1')
+M('c13-makeall-unsorted', 'C13', [(FU, "      for (new_predicate, instruction) in sorted(predicate_to_instruction):", "      for (new_predicate, instruction) in predicate_to_instruction:")], 'C13-R1')
+M('c13-time-in-table-name', 'C13', [(RT, "      t = 't_%d%s' % (self.table_num, suffix)", "      import time\n      t = 't_%d%s' % (int(time.time()) % 1000 + self.table_num, suffix)")], 'C13-R3')
+M('c13-no-deepcopy-structure', 'C13', [(RT, "  rule = copy.deepcopy(rule)\n  # Not disambiguating", "  rule = dict(rule)\n  # Not disambiguating")], 'C13-R4')
+M('c13-shared-infix-table', 'C13', [(ET, "    self.built_in_infix_operators = copy.deepcopy(\n        self.BUILT_IN_INFIX_OPERATORS)", "    self.built_in_infix_operators = (\n        self.BUILT_IN_INFIX_OPERATORS)")], 'C13-R4')
+M('c13-new-set-emission', 'C13', [(U, "    for rule in extended_rules:\n      predicate_name = rule['head']['predicate_name']\n      self.defined_predicates.add(predicate_name)\n      self.rules.append((predicate_name, rule))",
+                                   "    for rule in extended_rules:\n      predicate_name = rule['head']['predicate_name']\n      self.defined_predicates.add(predicate_name)\n    for predicate_name in self.defined_predicates:\n      for rule in extended_rules:\n        if rule['head']['predicate_name'] == predicate_name:\n          self.rules.append((predicate_name, rule))")], 'C13-R1')
+M('c13-class-table-mutated', 'C13', [(ET, "    self.CleanOperatorsAndFunctions()\n    self.exception_maker = exception_maker", "    self.CleanOperatorsAndFunctions()\n    QL.ANALYTIC_FUNCTIONS['Cumulative' + self.dialect.Name()] = 'SUM({0})'\n    self.exception_maker = exception_maker")], 'C13-R2')
+M('c13-unfold-in-place', 'C13', [(FU, "    new_rules = copy.deepcopy(self.rules)\n    for p, style in should_recurse.items():", "    new_rules = self.rules\n    for p, style in should_recurse.items():")], 'C13-R4')
+T('c13-twin-sorted-predicates', 'C13', [(FU, "    for p in self.predicates:\n      self.ArgsOf(p)\n\n  def GetConstantFunction", "    for p in sorted(self.predicates):\n      self.ArgsOf(p)\n\n  def GetConstantFunction")])
+T('c13-twin-set-loop-benign', 'C13', [(U, "    self.CheckDistinctConsistency()\n", "    self.CheckDistinctConsistency()\n    at_predicates = set()\n    for p in self.defined_predicates:\n      if p.startswith('@'):\n        at_predicates.add(p)\n    del at_predicates\n")])
+T('c13-twin-sorted-list', 'C13', [(U, "    self.dollar_params = list(self.ExtractDollarParams(rules))", "    self.dollar_params = sorted(self.ExtractDollarParams(rules))")])
